@@ -181,6 +181,14 @@ def open_bound_within_2eps(pb, steps):
     if eps is None:
         return False
     inst = [_instants(st) for st in steps]
+    for iv in pb.timed_goals:  # open bounds of timed goals are shifted in the same way (mock-up action of the conversion)
+        lo, hi = ttsem._gabs(iv.lower), ttsem._gabs(iv.upper)
+        for other in inst:
+            for t in other:
+                if iv.is_left_open() and lo is not None and 0 < t - lo < 2 * eps:
+                    return True
+                if iv.is_right_open() and hi is not None and 0 < hi - t < 2 * eps:
+                    return True
     for i, (s, a, args, d) in enumerate(steps):
         if d is None:
             continue
